@@ -581,8 +581,9 @@ class Gen:
             return ['limit', s, rnd.choice((0, 1, 1, 1, 2, 3))]
         if r < 0.75:
             return ['offset', s, rnd.choice((0, 1, 2))]
-        lim = self.gen(('i',), env, min(d, 1), pa) if rnd.random() < 0.3 else \
-            ['call', 'count', self.gen(self.pick_scalar_or_obj(), env, min(d, 1), pa)]
+        # LIMIT / OFFSET expressions are outside the scope of partial paths
+        lim = self.gen(('i',), env, min(d, 1), None) if rnd.random() < 0.3 else \
+            ['call', 'count', self.gen(self.pick_scalar_or_obj(), env, min(d, 1), None)]
         return [rnd.choice(('limitx', 'offsetx')), s, lim]
 
     def p_for(self, ty, env, d, pa):
